@@ -42,6 +42,7 @@ QInit(cap, hasEH) ==
     drivers |-> {},       \* threads that called emit / drop
     npanic  |-> 0, released |-> FALSE,
     sbOk |-> 0, sbDel |-> 0,  \* accepted / delivered counts when the sampler began to read
+    bulkOk |-> 0, bulkDel |-> 0,  \* tallies of a high-contention phase that is not logged event by event
     viol |-> {} ]
 
 Flag(q, v) == [q EXCEPT !.viol = @ \cup v]
@@ -158,14 +159,19 @@ QSample(q, s, d, qd, p) ==
            \cup (IF p > q.npanic THEN {<<"C11", "panic-count-too-high">>} ELSE {})
   IN Flag(q, v)
 
+\* a high-contention phase: many threads emitted at once, each counted its own Ok results, the wrapped sink counted
+\* what it was handed; only the totals are recorded (C15 "exact under any concurrency", at quiescence)
+QBulk(q, okn, deln) == [q EXCEPT !.bulkOk = @ + okn, !.bulkDel = @ + deln]
+
 \* after every producer returned and the sink had time to drain, handles still alive
 QQuiesce(q, s, d, qd, p) ==
-  LET acc == Cardinality(OkRet(q))
-      del == Cardinality(Delivered(q))
+  LET acc == Cardinality(OkRet(q)) + q.bulkOk
+      del == Cardinality(Delivered(q)) + q.bulkDel
       v == (IF s # acc THEN {<<"C15", "submitted-differs-from-accepted-emits">>} ELSE {})
            \cup (IF d # del THEN {<<"C15", "drained-differs-from-delivered-metrics">>} ELSE {})
            \cup (IF qd # s - d \/ s < d THEN {<<"C15", "queued-is-not-the-difference">>} ELSE {})
            \cup (IF p # q.npanic THEN {<<"C11", "panic-count-wrong">>} ELSE {})
+           \cup (IF q.bulkOk # q.bulkDel /\ q.handles # {} THEN {<<"C08", "accepted-metric-not-delivered-in-bulk-phase">>} ELSE {})
            \cup (IF Undelivered(q) # {} /\ q.handles # {}
                  THEN {<<"C08", "accepted-metric-not-delivered">>}
                       \cup (IF q.npanic > 0 THEN {<<"C11", "metric-lost-after-panic">>} ELSE {})
